@@ -11,7 +11,7 @@ namespace GV.Props.C17
 open GV.Protocol
 
 /-- the source order of the protocol steps, as it stands in /repo now (regenerated) -/
-theorem linker_steps_order : GV.Gen.linkerSteps = ["Lock", "checkVersion", "fileExists", "applyPatches", "buildLinker", "writeVersion"] := by decide
+theorem linker_steps_order : GV.Gen.linkerSteps = ["Lock", "checkVersion", "fileExists", "applyPatches", "Remove", "Remove", "buildLinker", "writeVersion"] := by decide
 /-- the lock is taken inside PatchLinker, released by a deferred call, i.e. after the linker has run -/
 theorem toolexec_steps_order : GV.Gen.toolexecLinkSteps = ["PatchLinker", "defer unlock", "Run"] := by decide
 
